@@ -751,6 +751,11 @@ fn gen_cases(rng: &mut Rng, thorough: bool) -> Vec<Case> {
     ("dur", "P1D"), ("dur", "-P1DT2H3M4.5S"), ("dur", "PT36H"), ("dur", "PT0.000000001S"), ("dur", "P1Y2M"), ("dur", "-P14M"), ("dur", "P10Y"), ("dur", "PT1M"),
     ("at", "2021-02-28"), ("at", "10:20:30Z"), ("at", "2021-02-28T10:20:30+01:00"), ("at", "P1Y2M"), ("at", "P1DT1H"),
   ];
+  // durations of length zero, written in every way (their normal form is PT0S resp. P0M, without a sign)
+  for lit in ["PT0S", "-PT0S", "P0D", "PT0H", "PT0M", "P0DT0H0M0S", "PT0.000000000S", "-P0DT0.0S", "P0M", "P0Y", "-P0M", "P0Y0M", "-P0Y0M"] {
+    cs.push(Case { kind: "dur", text: lit.to_string(), expected: None, sig: "", family: "corpus" });
+    cs.push(Case { kind: "at", text: lit.to_string(), expected: None, sig: "", family: "corpus" });
+  }
   let alphabet: Vec<char> = "09:-+.TZPx @/".chars().collect();
   let alphabet2: Vec<char> = "15zYMDHSt_\u{661}".chars().collect();
   for (kind, lit) in &corpus {
